@@ -26,6 +26,7 @@ from .engine import make_vm, check, find_fn
 from .vm import Ref, Cell, BV, Struct, Seq, Opaque, Unsupported, mk_int
 from .mir import MirSyntax
 from .natives import crate_contract, dv
+from . import c07      # registers the slice::partition_point native
 from . import c13m     # Column::index / ColumnIndex::indexes contracts and the harness-supplied index (_INDEX)
 
 SRC = 'src/storage/secondary/column/concrete_column_iterator.rs'
@@ -216,8 +217,49 @@ def run_skip(rep, thorough):
                     continue
                 w = wit(mdl, rc, row, BitVecVal(0, 64))
                 report(rep, desc, 'wrong-batch-size' if o.kind == 'ret' else 'panics', w, b, False, None)
+    # ColumnIndex::block_of_row: the seek of a column iterator lands on the block that holds the row
+    try:
+        f_bor = find_fn(vm.prog, r'^(secondary::)?index::<impl at src/storage/secondary/index\.rs:\d+:\d+: \d+:\d+>::block_of_row$')
+    except Inconclusive as ex:
+        rep.fail_inconclusive('block_of_row: %s' % ex)
+        f_bor = None
+    for K in ((1, 2, 3) if f_bor else ()):
+        rc = [BitVec('rc%d' % i, 32) for i in range(K)]
+        first = [BitVecVal(0, 32)]
+        for i in range(K - 1):
+            first.append(first[i] + rc[i])
+        total = first[K - 1] + rc[K - 1]
+        base = [And(UGE(x, 1), ULE(x, RC_MAX)) for x in rc]
+        blocks = [Struct('BlockIndex', [{'first_rowid': BV(first[i], False), 'row_count': BV(rc[i], False)}.get(f, Opaque(f)) for f in bfields]) for i in range(K)]
+        ci = Struct('ColumnIndex', [Struct('Arc', [Seq(blocks, 'slice')])])
+        row = BitVec('row', 32)
+        desc = 'ColumnIndex::block_of_row over %d blocks' % K
+        try:
+            outs = vm.run(f_bor, [Ref(Cell(ci)), BV(row, False)], pc=tuple(base + [ULT(row, total)]))
+        except (Unsupported, MirSyntax, KeyError, AttributeError, Inconclusive, IndexError) as ex:
+            rep.fail_inconclusive('%s: %s: %s' % (desc, type(ex).__name__, str(ex)[:300]))
+            continue
+        rep.cov['programs'] += 1
+        for o in outs:
+            nq += 1
+            pc = list(o.pc)
+            if o.kind != 'ret':
+                stv, mdl = engine.satisfiable(pc)
+            else:
+                b = o.value.v
+                claim = Or([And(b == i, UGE(row, first[i]), ULT(row, first[i] + rc[i])) for i in range(K)])
+                stv, mdl = check(pc, claim)
+            if stv == 'unsat':
+                rep.obligation(True)
+                continue
+            if stv != 'sat':
+                rep.obligation(False)
+                rep.fail_inconclusive('solver unknown: %s' % desc)
+                continue
+            w = wit(mdl, rc, row, BitVecVal(0, 64))
+            report(rep, desc, 'seek-lands-on-wrong-block' if o.kind == 'ret' else 'panics', w, 0, False, None)
     rep.solver(time.time() - t0, nq)
-    rep.cov['functions_encoded'] = list(rep.cov.get('functions_encoded', [])) + ['ConcreteColumnIterator::{skip_inner, incre_block_id, fetch_hint_inner} (from MIR)']
+    rep.cov['functions_encoded'] = list(rep.cov.get('functions_encoded', [])) + ['ConcreteColumnIterator::{skip_inner, incre_block_id, fetch_hint_inner}, ColumnIndex::block_of_row (from MIR)']
     rep.cov.setdefault('bounds', {})
     rep.cov['bounds']['column skip'] = 'K <= %d blocks, rows per block <= 2^20, skip count <= 2^22, any position inside the current block, block loaded or not' % (4 if thorough else 3)
 
